@@ -907,8 +907,14 @@ class _ClientGen:
             if not calc:
                 self.live["moltext"].append(i)
             elif r.random() < 0.6:
-                # the same labelled molecule in another insertion order, laid out again
-                h = self._add({"op": "edit", "arg": a, "how": "reorder", "x": r.randrange(1000), "inplace": False}, "graph", canon=(a in self.live["canon"]))
+                if r.random() < 0.5:
+                    # the same labelled molecule in another insertion order, laid out again
+                    h = self._add({"op": "edit", "arg": a, "how": "reorder", "x": r.randrange(1000), "inplace": False}, "graph", canon=(a in self.live["canon"]))
+                else:
+                    # the caller rewires the very object it has just written (same atoms,
+                    # other bonds) and writes it again
+                    self._retire(a)
+                    h = self._add({"op": "edit", "arg": a, "how": "rewire", "x": r.randrange(1000), "inplace": True}, "graph")
                 i = self._add({"op": "write", "arg": h, "calc": True}, None)
             return i
         if k == "read_reg":
@@ -943,7 +949,7 @@ class _ClientGen:
             return i
         if k == "edit":
             j = r.choice(g)
-            how = r.choice(["chg", "bond", "coords", "all", "all", "del_atom", "reorder", "reorder"])
+            how = r.choice(["chg", "bond", "coords", "all", "all", "del_atom", "reorder", "reorder", "rewire"])
             inplace = r.random() < 0.4 and how != "reorder"
             was_canon = j in self.live["canon"]
             if inplace:
